@@ -353,6 +353,18 @@ def install(rf, ctrl, hook_models=True):
             outs['C'], outs['P'] = out_im, param_im
             yield Proxy(out_im, 'C', ctrl), (Proxy(param_im, 'P', ctrl) if param_im else None)
 
+    orig_pb = type(rf)._process_block
+    counter = {'n': 0}
+
+    def process_block(self, block_pair, model, corr_im, param_im=None):
+        if ctrl.wid() is None:   # single-thread branch: blocks run in the calling thread, in submission order
+            ctrl.job_of[None] = counter['n']
+            counter['n'] += 1
+            ctrl.io_seen['main'] = set()
+            ctrl.main_jobs = counter['n']
+        return orig_pb(self, block_pair, model, corr_im, param_im)
+    saved['pb'] = orig_pb
+    type(rf)._process_block = process_block
     hf.futures = FuturesShim
     if hook_models:
         hf.RefSpaceModel, hf.SrcSpaceModel = HRef, HSrc
@@ -363,6 +375,7 @@ def install(rf, ctrl, hook_models=True):
         hf.futures = saved['futures']
         hf.RefSpaceModel, hf.SrcSpaceModel = saved['Ref'], saved['Src']
         type(rf)._out_files = saved['out_files']
+        type(rf)._process_block = saved['pb']
         rf._src_im, rf._ref_im = real_src, real_ref
         ctrl.stop()
 
